@@ -316,7 +316,17 @@ def check_case(ctx, case, only=None):
             ctx.inconclusive_case("oracle error " + repr(e)[:120], item)
             continue
         if not (np.all(np.isfinite(Bl[i])) and np.all(np.isfinite(Hl[i]))):
-            ctx.count("library_nonfinite_rows")  # C15 decides finiteness
+            # C15 decides finiteness ON the special sets of the surface itself; here the observer is >= 1e-3 sizes off
+            # the surface / wire and the first-principles integral is finite: NaN/inf is not "the field"
+            ctx.count("library_nonfinite_rows")
+            if np.all(np.isfinite(Br)) and np.all(np.isfinite(Hr)):
+                near_co = bool(s["cls"] == "CylinderSegment" and G.cylseg_coincidence_dist(s, pl[None])[0] < 1e-3)
+                ctx.violation({"kind": "non-finite-where-the-integral-is-finite", "cls": s["cls"], "region": reg,
+                               **({"near_coincidence<1e-3": True} if near_co else {})},
+                              # (the whole batch is kept: the vectorised special functions switch on the row count)
+                              {"source": s, "observers": case["observers"], "regions": case["regions"],
+                               **({"companion": case["companion"]} if case.get("companion") else {})},
+                              {"row": i, "lib_B": Bl[i], "lib_H": Hl[i], "ref_B": Br, "local": pl, "batch_rows": len(P)})
             continue
         ctx.count("compared_rows")
         ctx.count("region:" + reg)
